@@ -91,13 +91,15 @@ def rc_model(drv, case, raw, files, state):
     pl = info[b"piece length"]
     if b"meta version" not in info:
         if b"files" in info:
-            entries = [("/".join(c.decode("utf8") for c in e[b"path"]), e[b"length"])
+            entries = [("/".join(c.decode("utf8") for c in e[b"path"]), e[b"length"], b"p" in e.get(b"attr", b""))
                        for e in info[b"files"]]
         else:
-            entries = [(files[0][0], info[b"length"])]
+            entries = [(files[0][0], info[b"length"], False)]
         toks = []
-        for rel, length in entries:
-            data = state.get(rel)
+        for rel, length, pad in entries:
+            # a padding entry stands for zeros whatever sits at its path (a real file may be
+            # named exactly like it, e.g. '.pad/16383')
+            data = None if pad else state.get(rel)
             toks += [str(length), "absent" if data is None else "h" + (data.hex() or "-")]
         from harness.common import hx
         drv.ask(f"feed {pl} {hx(info[b'pieces'])} {len(entries)} " + " ".join(toks),
@@ -203,6 +205,16 @@ def run(tier, seed, replay=None):
     from harness.common import corpus_cases
     cases = [replay["case"]] if replay else corpus_cases("C05") + \
         [rc.make_case(run.rng, tier, damage=False) for _ in range(150 if tier == "quick" else 900)]
+    if not replay:
+        # single-piece payloads whose SHA-1 / SHA-256 digest is valid UTF-8
+        from harness import gen
+        from harness.common import Blob
+        for version, creators, data in ((1, ["v1"], gen.UTF8_DIGEST[0]), (2, ["a2", "v2"], gen.UTF8_DIGEST[1]),
+                                        (3, ["a3", "hy"], gen.UTF8_DIGEST[1]), (3, ["hy"], gen.UTF8_DIGEST[0])):
+            for source in ["own"] * len(creators) + ["ref"]:
+                cases.append({"files": [("f.bin", Blob.hexb(data).token())], "pl": 16384, "version": version,
+                              "single": True, "source": source, "creator": creators[len(cases) % len(creators)],
+                              "via_parent": False, "damage": [], "utf8_digest": True})
     for case in cases:
         if case.get("big_piece"):
             continue
